@@ -326,6 +326,10 @@ def find_loops(masked_body):
 def apply_anchor_inserts(text, inserts):
     """inserts: list of (where, anchor, nth, payload). Applied one at a time on fresh masks."""
     for where, anchor, nth, payload in inserts:
+        if where == "start":
+            o = text.find("{")
+            text = text[:o + 1] + "\n" + "".join("    " + l + "\n" for l in payload) + text[o + 1:]
+            continue
         idx = -1
         start = 0
         for _ in range(nth):
@@ -561,6 +565,11 @@ def parse_template(tpl_text, base_dir=None, hashes=None):
             a = parse_attrs(" ".join(toks[1:]))
             payload = []
             cur.loops[k] = (a.get("binder"), payload)
+            target = payload
+        elif word == "start":
+            # position-only insert: right after the opening brace of the function body (no anchor in the body text)
+            payload = []
+            cur.inserts.append(("start", "", 1, payload))
             target = payload
         elif word in ("before", "after"):
             toks = shlex.split(rest)
